@@ -114,6 +114,13 @@ impl<H> HandlerVec<H> {
         &mut self,
         mut cb: impl FnMut(H) -> HandlerResult,
     ) -> HandlerResult {
+        #[cfg(feature = "_verif_hooks")]
+        crate::verif_hooks::add_handler_steps(
+            self.items
+                .iter()
+                .position(|item| item.user_count > 0)
+                .map_or(self.items.len(), |p| p + 1),
+        );
         // already-handled end tag handlers may be first, and they must not be removed
         if let Some(first) = self.items.iter().position(|item| item.user_count > 0) {
             // Must drop everything after, as remove() would change indexes anyway, breaking locators.
